@@ -49,23 +49,34 @@ ALARM_FIRED = [False]
 def _alarm(signum, frame):
     ALARM_FIRED[0] = True
     # re-arm: if a bare `except:` in the tool swallows this one, the next tick raises again
-    signal.setitimer(signal.ITIMER_REAL, 0.5)
+    signal.setitimer(signal.ITIMER_VIRTUAL, 0.5)
+    signal.setitimer(signal.ITIMER_REAL, 3)
     raise UnitTimeout()
+
+
+WALL_FACTOR = 8
 
 
 @contextlib.contextmanager
 def cpu_alarm(seconds):
-    """Raise UnitTimeout inside the block after `seconds` of wall time (SIGALRM)."""
+    """Raise UnitTimeout inside the block after `seconds` of user CPU time of this process (SIGVTALRM), or after
+    WALL_FACTOR x `seconds` of wall time (SIGALRM; covers a unit that blocks instead of computing).  CPU time, so
+    that a loaded machine (other checks, the repository's own test-suite running next to this one) cannot turn a
+    fast unit into a timeout."""
     old = signal.signal(signal.SIGALRM, _alarm)
+    oldv = signal.signal(signal.SIGVTALRM, _alarm)
     ALARM_FIRED[0] = False
-    signal.setitimer(signal.ITIMER_REAL, seconds)
+    signal.setitimer(signal.ITIMER_VIRTUAL, seconds)
+    signal.setitimer(signal.ITIMER_REAL, seconds * WALL_FACTOR)
     try:
         yield
         if ALARM_FIRED[0]:
             raise UnitTimeout()  # the alarm was swallowed somewhere inside the tool
     finally:
+        signal.setitimer(signal.ITIMER_VIRTUAL, 0)
         signal.setitimer(signal.ITIMER_REAL, 0)
         signal.signal(signal.SIGALRM, old)
+        signal.signal(signal.SIGVTALRM, oldv)
 
 
 class _Null(io.TextIOBase):
